@@ -6,12 +6,14 @@ from flowmark.linewrapping.tag_handling import TEMPLATE_TAG_PATTERN
 # Precompiled regex patterns
 PARAGRAPH_BREAK_PATTERN: Pattern[str] = re.compile(r"\n\s*\n")
 
+# Quoted content never extends across a paragraph break (a blank line), so that an unbalanced
+# quote in one paragraph cannot pair with, and thereby block, a quote in the next one.
 # Pattern excludes content that contains the same type of quote characters
 # Double quotes exclude double quotes, single quotes exclude single quotes.
 # Also as a special case allows quotes to start after an em dash (but not other punctuation
 # as this is more likely to be code).
 QUOTE_PATTERN: Pattern[str] = re.compile(
-    r'(^|\s|—)(?:"([^"\u201c\u201d]*)"|\'([^\'\u2018\u2019]*)\')(\s|$|\.|,|;|:|\?|!|—|\))',
+    r'(^|\s|—)(?:"((?:(?!\n\s*\n)[^"\u201c\u201d])*)"|\'((?:(?!\n\s*\n)[^\'\u2018\u2019])*)\')(\s|$|\.|,|;|:|\?|!|—|\))',
     re.MULTILINE,
 )
 
